@@ -37,6 +37,7 @@ import Driver.Alac
 import Driver.AbsWrite
 import Driver.Small4
 import Driver.CrossType
+import Driver.AdpcmEnc
 open Sf
 
 def lawOf (s : String) : Option G711.Law :=
@@ -119,4 +120,5 @@ def main (args : List String) : IO UInt32 := do
   | "abs-write" :: rest => AbsWriteDriver.cmd rest
   | "small4" :: rest => Driver.Small4.cmd rest
   | "crosstype" :: rest => CrossTypeDriver.cmd rest
+  | "adpcmenc" :: rest => Driver.AdpcmEnc.cmd rest
   | _ => IO.eprintln "usage: sfmodel <g711|...> ..."; return 2
